@@ -253,6 +253,7 @@ func WorkerMain(t *testing.T) {
 		if budget > 0 && time.Since(startWall) > budget {
 			break
 		}
+		progress.Add(1)
 		os.WriteFile(filepath.Join(outDir, "current-"+workerName), []byte(strconv.Itoa(run)), 0644)
 		var c *Chooser
 		if replay {
